@@ -82,7 +82,11 @@ def evidence(prop, meta, tier, seed, results, violations, known_hits, wall, tool
         n = r.native or {}
         return n.get('nontrivial') if n.get('scenarios') else (n.get('sites') or 0)
     inst = sum(b_eval(r) for r in byk['B'])
-    nontriv = sum(b_nontriv(r) for r in byk['B']) + sum(1 for r in byk['P'] + byk['S'] if r.covers.get('end'))
+    def guard_ok(r):
+        # a proved / step group is non-trivial when every vacuity canary it requires was reachable
+        # (normal return and/or abort, per group)
+        return r.status == 'pass' and all(r.covers.get(c, False) for c in r.group.covers)
+    nontriv = sum(b_nontriv(r) for r in byk['B']) + sum(1 for r in byk['P'] + byk['S'] if guard_ok(r))
     if meta['level'] == 'proof':
         # only unbounded obligations count for a proof-level claim
         cov['obligations'] = count(byk['P']) + count(byk['S'])
@@ -90,7 +94,11 @@ def evidence(prop, meta, tier, seed, results, violations, known_hits, wall, tool
         cov['checker_cmd'] = 'goto-cc --function <harness> spec/<module>.c && goto-instrument --dfcc <harness> --enforce-contract <f> [--replace-call-with-contract <g>]... [--apply-loop-contracts] && cbmc [--cvc5]  (exact commands per group: out/logs/%s/<group>.log)' % prop
         cov['trusted_base'] = meta['trusted']
         cov['evaluations'] = len(results)
-        cov['distinct_nontrivial'] = nontriv
+        cov['distinct_nontrivial'] = sum(1 for r in byk['P'] + byk['S'] if guard_ok(r)) + \
+            sum(1 for r in byk['B'] if r.native and r.native.get('ran') and not r.native.get('failed'))
+        cov['rule'] = ("evaluations = obligation groups decided in this run (one contract instance each: all inputs at once); "
+                       "distinct_nontrivial = groups whose vacuity canaries were all reachable (normal return and/or abort, as the "
+                       "contract requires), plus bounded groups whose harness also ran natively on the real code; groups are distinct by construction")
     else:
         cov['evaluations'] = inst + len(byk['P']) + len(byk['S'])
         cov['distinct_nontrivial'] = nontriv
